@@ -32,6 +32,9 @@ def tasks(tier, seed):
                        weight=max(1, v) * 3))
     ts.append(Task('argument_refusal', MOD, 'task_refusal', (), backend='ground',
                    fuc=['segno.utils.matrix_iter', 'segno.utils.matrix_iter_verbose', 'segno.utils.check_valid_scale', 'segno.utils.check_valid_border']))
+    for fn in ('matrix_iter', 'matrix_iter_verbose'):
+        ts.append(Task('iter_kernel[%s]' % fn, MOD, 'task_iter_kernel', (fn,), fuc=['segno.utils.' + fn, 'segno.utils.get_border', 'segno.utils.get_default_border_size',
+                                                                                    'segno.utils.check_valid_scale', 'segno.utils.check_valid_border'], weight=20))
     ts.append(Task('colormap', MOD, 'task_colormap', (), backend='ground', fuc=['segno.writers._make_colormap', 'segno.writers.colorful'], weight=30))
     for k in range(8):
         ts.append(Task('bounded_colourful[%d]' % k, MOD, 'task_bounded_colourful', (seed, k, 6 if tier == 'quick' else 40), backend='bounded',
@@ -251,3 +254,104 @@ def task_colormap(I):
                 if t not in cm or cm[t] is not want:
                     bad.append((t, opt, repr(cm.get(t, 'missing'))))
             I.ground('C11.colormap.type_colour_is_its_own_option_else_dark_or_light', not bad, witness=dict(wit, wrong=bad[:3]), replay=rp)
+
+
+# ------------------------------------------------------------------ iteration kernel: ANY size, scale, border (loop contracts, ghost row counter)
+def task_iter_kernel(I, fname):
+    """matrix_iter / matrix_iter_verbose for a matrix of symbolic width and height, symbolic integer scale >= 1 and border >= 0 (or None):
+    the rows come in order, row number q * scale + t (0 <= t < scale) depicts module row q - border, has (width + 2 border) * scale
+    entries, and entry p * scale + t' depicts module column p - border: the value is the module (matrix_iter: light outside the symbol)
+    resp. get_bit(row, column) (matrix_iter_verbose; get_bit is summarised by an uninterpreted function, its classification is proved
+    per version by task_classify); the number of rows is (height + 2 border) * scale."""
+    import z3
+    from pyvc.sym import s_and, s_or, s_implies, s_ite, _z, fresh_name
+    from pyvc.values import SMatrix, SLazySeq
+    from pyvc.interp import LoopSpec
+    verbose = fname == 'matrix_iter_verbose'
+    f = I.get_function('segno.utils', fname)
+    K1, K2 = ('segno.utils:' + fname, 1), ('segno.utils:' + fname, 2)
+    st = {}
+    G = z3.Function('get_bit', z3.IntSort(), z3.IntSort(), z3.IntSort())
+
+    def inv_outer(ctx):
+        return [('rows_yielded_so_far', st['y'] == ctx.k * st['scale'])]
+
+    def havoc_outer(ctx):
+        st['y'] = ctx.interp.fresh_int('ghost_rows', 0, None)
+
+    def exit_outer(ctx):
+        I.oblige('C11.%s.number_of_rows_is_height_plus_two_borders_times_scale' % fname, st['y'] == (st['h'] + 2 * st['b']) * st['scale'])
+        st['exits'] = st.get('exits', 0) + 1
+
+    def inv_inner(ctx):
+        k1 = ctx.interp.loop_k[K1]
+        return [('rows_yielded_so_far', st['y'] == k1 * st['scale'] + ctx.k)]
+
+    def havoc_inner(ctx):
+        st['y'] = ctx.interp.fresh_int('ghost_rows', 0, None)
+    I.loopspecs[K1] = LoopSpec(inv_outer, havoc_outer, on_exit=exit_outer)
+    I.loopspecs[K2] = LoopSpec(inv_inner, havoc_inner)
+
+    def on_yield(I, row):
+        k1, k2 = I.loop_k[K1], I.loop_k[K2]
+        w, h, b, sc, mat = st['w'], st['h'], st['b'], st['scale'], st['mat']
+        i = k1 - b
+        I.oblige('C11.%s.rows_in_order_each_module_row_scale_times' % fname, s_and(st['y'] == k1 * sc + k2, k2 >= 0, k2 < sc, k1 >= 0, k1 < h + 2 * b))
+        ok = isinstance(row, SLazySeq) and row.kind == 'tuple' and hasattr(row, 'block_elem')
+        I.ground('C11.%s.row_is_a_tuple_of_repeated_modules' % fname, ok, witness=repr(type(row)))
+        if ok:
+            I.oblige('C11.%s.row_length_is_width_plus_two_borders_times_scale' % fname, s_and(row.block_count == w + 2 * b, row.block_len == sc))
+            q = I.fresh_int('pixel_block', 0, None)
+            I.assume(q < w + 2 * b)
+            j = q - b
+            got = row.block_elem(q)
+            if verbose:
+                want = SInt(G(_z(i), _z(j)))
+            else:
+                inside = s_and(i >= 0, i < h, j >= 0, j < w)
+                want = s_ite(inside, mat.cell(i, j), 0)
+            I.oblige('C11.%s.pixel_depicts_module_row_minus_border_column_minus_border' % fname, got == want)
+        st['y'] = st['y'] + 1
+    I.yield_hook = on_yield
+    if verbose:
+        def s_get_bit(I, clo, args, kwargs):
+            bd = I.bind_args(clo, args, kwargs)
+            return SInt(G(_z(bd['i']), _z(bd['j'])))
+        I.summaries['segno.utils:matrix_iter_verbose.<locals>.get_bit'] = s_get_bit
+        I.summaries['segno.encoder:make_matrix'] = lambda I, clo, args, kwargs: 'ALIGNMENT-MATRIX'
+        I.summaries['segno.encoder:add_alignment_patterns'] = lambda I, clo, args, kwargs: None
+    for border_none in (False, True):
+        def thunk(I):
+            st.clear()
+            w = I.fresh_int('width', 1, None)
+            h = w if border_none else I.fresh_int('height', 1, None)      # the default border is defined for square symbols
+            sc = I.fresh_int('scale', None, None)
+            b = None if border_none else I.fresh_int('border', None, None)
+            mat = SMatrix('matrix', h, 0, 1)
+            mat.width = w
+            st.update(w=w, h=h, scale=sc, mat=mat, y=0)
+            I.inputs.update(width=w, height=h, scale=sc)
+            if b is not None:
+                I.inputs['border'] = b
+            st['b_arg'] = b
+            # the effective border: the argument, or the default for the symbol kind (4 / 2)
+            st['b'] = b if b is not None else s_ite(w < 21, 2, 4)
+            if b is None:
+                I.assume(s_or(w <= 17, w >= 21))        # sizes of symbols: Micro 11..17, QR 21..177 (the default border is defined for those)
+            return I.iterate(I.call_function(f, (mat, (w, h)), dict(scale=sc, border=b)))
+
+        def post(I, kind, val):
+            sc, b = st['scale'], st['b_arg']
+            if kind == 'raise':
+                bad = (sc <= 0) if b is None else s_or(sc <= 0, b < 0)
+                I.ground('C11.%s.only_ValueError_is_raised' % fname, isinstance(val, ValueError), witness=repr(val))
+                I.oblige('C11.%s.refuses_only_scale_below_1_or_negative_border' % fname, bad)
+            else:
+                I.oblige('C11.%s.accepts_only_scale_at_least_1_and_border_at_least_0' % fname, (sc >= 1) if b is None else s_and(sc >= 1, b >= 0))
+        I.replay_spec = dict(fn='replay_iter_kernel', function=fname)
+        I.explore(thunk, post)
+        I.ground('C11.%s.cover.loop_exit_reached' % fname, st.get('exits', 0) > 0, kind='cover')
+    I.yield_hook = None
+    for k in ('segno.utils:matrix_iter_verbose.<locals>.get_bit', 'segno.encoder:make_matrix', 'segno.encoder:add_alignment_patterns'):
+        I.summaries.pop(k, None)
+    del I.loopspecs[K1], I.loopspecs[K2]
